@@ -122,7 +122,7 @@ fn check_full() -> Option<String> {
 }
 
 // ---- synthetic KyTea models (binary format as the reader consumes it), seeded ----
-const CHAR_MAP: &str = "KTHRDOabcdあい漢ア1x";
+const CHAR_MAP: &str = "KTHRDOabcdあい漢ア1x\u{4}";
 fn cid(c: char) -> u16 { CHAR_MAP.chars().position(|x| x == c).unwrap() as u16 + 1 }
 fn put_u32(b: &mut Vec<u8>, v: u32) { b.extend_from_slice(&v.to_le_bytes()); }
 fn put_i16s(b: &mut Vec<u8>, vs: &[i16]) { put_u32(b, vs.len() as u32); for v in vs { b.extend_from_slice(&v.to_le_bytes()); } }
@@ -162,7 +162,11 @@ fn synth(seed: u64) -> Synth {
     let n_dicts = r.below(4) as u8;
     let bias = r.below(201) as i16 - 100;
     let text_chars: Vec<char> = "abcdあい漢ア1x".chars().collect();
-    let type_letters = ['K', 'T', 'H', 'R', 'D', 'O'];
+    // every 5th model: the invalid type letter 0x04 of some distributed KyTea models occurs in type n-grams (those n-grams
+    // must be dropped by the conversion); every 4th model: dictionary weights near the i16 limits (sums over several
+    // dictionaries leave the 16-bit range)
+    let type_letters: Vec<char> = if seed % 5 == 2 { vec!['K', 'T', 'H', 'R', 'D', 'O', '\u{4}'] } else { vec!['K', 'T', 'H', 'R', 'D', 'O'] };
+    let big = seed % 4 == 1;
     let distinct = |r: &mut crate::gen::Rng, alpha: &[char], max_len: usize, count: usize| -> Vec<String> {
         let mut v: Vec<String> = vec![];
         for _ in 0..count * 4 {
@@ -182,7 +186,7 @@ fn synth(seed: u64) -> Synth {
     let masks: Vec<u8> = words.iter().map(|_| r.below(1 << n_dicts) as u8).collect();
     let cweights: Vec<Vec<i16>> = cgrams.iter().map(|g| (0..2 * cw as usize + 1 - g.chars().count()).map(|_| r.below(201) as i16 - 100).collect()).collect();
     let tweights: Vec<Vec<i16>> = tgrams.iter().map(|g| (0..2 * tw as usize + 1 - g.chars().count()).map(|_| r.below(201) as i16 - 100).collect()).collect();
-    let dict_vec: Vec<i16> = (0..3 * dict_n as usize * n_dicts as usize).map(|_| r.below(201) as i16 - 100).collect();
+    let dict_vec: Vec<i16> = (0..3 * dict_n as usize * n_dicts as usize).map(|_| if big { (r.below(65001) as i32 - 32500) as i16 } else { r.below(201) as i16 - 100 }).collect();
 
     let mut b = vec![];
     b.extend_from_slice(b"KyTea 0.4.0 B utf8\n");
@@ -207,7 +211,7 @@ fn synth(seed: u64) -> Synth {
     let tcode = |c: char| -> u8 { match c { 'D' => 1, 'R' => 2, 'H' => 3, 'T' => 4, 'K' => 5, _ => 6 } };
     let want = ModelData {
         char_ngram_model: crate::gen::NgramModel(cgrams.iter().zip(&cweights).map(|(g, w)| crate::gen::NgramData { ngram: g.clone(), weights: w.iter().map(|x| *x as i32).collect() }).collect()),
-        type_ngram_model: crate::gen::NgramModel(tgrams.iter().zip(&tweights).map(|(g, w)| crate::gen::NgramData { ngram: g.chars().map(tcode).collect(), weights: w.iter().map(|x| *x as i32).collect() }).collect()),
+        type_ngram_model: crate::gen::NgramModel(tgrams.iter().zip(&tweights).filter(|(g, _)| !g.contains('\u{4}')).map(|(g, w)| crate::gen::NgramData { ngram: g.chars().map(tcode).collect(), weights: w.iter().map(|x| *x as i32).collect() }).collect()),
         dict_model: crate::gen::DictModel(words.iter().zip(&masks).map(|(w, m)| {
             let n = w.chars().count();
             let bucket = n.min(dict_n as usize) - 1;
